@@ -404,6 +404,27 @@ func c18Pipeline(text string) (string, error) {
 	return fmt.Sprintf("%d facts %s | proofs %d | reloaded %s | bytes %d", len(keys), core.HashKey(keys...), nproofs, core.HashKey(set2.Keys()...), buf.Len()), nil
 }
 
+// c18BuiltinBlock: clauses that take every pipeline through library functions that consult tables or the
+// environment (time zones, layouts, string and name conversion), each pipeline with its own zone and instants, so a
+// piece of state that the library shares between evaluations shows in the results (or to the race detector).
+func c18BuiltinBlock(r *rand.Rand, i int) string {
+	zones := []string{"Asia/Tokyo", "Asia/Dubai", "Europe/Zurich", "America/New_York", "Australia/Sydney", "Asia/Kolkata", "UTC", "America/Sao_Paulo", "Africa/Nairobi", "Pacific/Auckland"}
+	z := zones[(i+r.Intn(3))%len(zones)]
+	if _, err := time.LoadLocation(z); err != nil {
+		z = "UTC"
+	}
+	var sb strings.Builder
+	n := 20 + r.Intn(40)
+	for k := 0; k < n; k++ {
+		fmt.Fprintf(&sb, "zinst(fn:time:parse_rfc3339(\"2024-%02d-%02dT%02d:30:00Z\")).\n", 1+(k+i)%12, 1+(k*7+i)%28, (k*5+i)%24)
+	}
+	fmt.Fprintf(&sb, "zcivil(T, S) :- zinst(T), S = fn:time:format_civil(T, %q, /minute).\n", z)
+	fmt.Fprintf(&sb, "zday(T, D) :- zinst(T), D = fn:time:trunc_civil(T, %q, /day).\n", z)
+	fmt.Fprintf(&sb, "zback(T, U) :- zinst(T), S = fn:time:format_civil(T, %q, /second), C = fn:string:replace(S, \"Z\", \"\", 1), U = fn:string:concat(C, %q).\n", z, z)
+	fmt.Fprintf(&sb, "zname(N) :- zinst(T), N = fn:time:year(T).\n")
+	return sb.String()
+}
+
 func c18Par(c c18Case, res *core.Result) *evalFail {
 	old := runtime.GOMAXPROCS(c.Procs)
 	defer runtime.GOMAXPROCS(old)
@@ -413,7 +434,7 @@ func c18Par(c c18Case, res *core.Result) *evalFail {
 		o := gen.ProgOpts{Negation: true, Compare: true, Functions: r.Intn(2) == 0, Lists: r.Intn(2) == 0, Let: true, Do: r.Intn(2) == 0, DoPercent: 50, Wildcards: true, FnInAtoms: true,
 			Reducers: []string{"fn:count", "fn:sum", "fn:min", "fn:max"}}
 		p := gen.RandProgram(r, o)
-		pipes[i].text = progText(p)
+		pipes[i].text = progText(p) + c18BuiltinBlock(r, i)
 		solo, err := c18Pipeline(pipes[i].text)
 		if err != nil {
 			solo = "pipeline-error: " + err.Error()
@@ -445,6 +466,13 @@ func c18Par(c c18Case, res *core.Result) *evalFail {
 	if res != nil {
 		res.Ob("parallel_rounds", 1)
 		res.Ob("pipelines_run_in_parallel", len(pipes)*3)
+		for i := range pipes {
+			if strings.HasPrefix(pipes[i].result, "pipeline-error") {
+				res.Ob("pipelines_ending_in_error", 1)
+			} else {
+				res.Ob("pipelines_ending_with_result", 1)
+			}
+		}
 		res.NonTrivial = len(pipes) >= 12
 	}
 	for i := range pipes {
